@@ -942,6 +942,10 @@ func (c *ExprCtx) call(x *ast.CallExpr) TV {
 	case "isnil":
 		a := c.eval(x.Args[0])
 		return TV{V: VBool{T: c.equal(a, TV{T: types.Typ[types.UntypedNil]})}, T: boolT}
+	case "allochere":
+		// allochere(m): map m was created by a make in this function's own execution
+		a := c.eval(x.Args[0])
+		return TV{V: VBool{T: app(c.w.st.declare("alloc_here", []string{sortU}, sortBool), c.w.fold(c.st, a.V))}, T: boolT}
 	case "implements":
 		// implements(x, "pkg.Iface"): the interface-to-interface assertion x.(Iface)
 		// would succeed (same symbol as the executor uses for that assertion)
